@@ -176,10 +176,17 @@ Proof.
   rewrite (chain_contiguous _ _ _ Hchain). cbn [andb].
   pose proof (segs_reasons gate (m_name m) segs [f] Hsegs) as R. cbn [existsb] in R. rewrite orb_false_r in R.
   change (jname gate f) with (eff_name gate f). rewrite <- Hname, R. cbn [andb].
-  destruct gate as [g|]; [|reflexivity].
-  destruct ((m_start m =? g) && negb (is_path (l_name f))) eqn:E; [|reflexivity].
-  apply andb_prop in E. destruct E as (E1 & E2). apply N.eqb_eq in E1.
-  rewrite Hname. unfold eff_name, renamed. rewrite E2, <- Hstart, E1, N.eqb_refl. apply name_eqb_refl.
+  apply andb_true_iff. split.
+  - destruct gate as [g|]; [|reflexivity].
+    destruct ((m_start m =? g) && negb (is_path (l_name f))) eqn:E; [|reflexivity].
+    apply andb_prop in E. destruct E as (E1 & E2). apply N.eqb_eq in E1.
+    rewrite Hname. unfold eff_name, renamed. rewrite E2, <- Hstart, E1, N.eqb_refl. apply name_eqb_refl.
+  - destruct (name_eqb (m_name m) gate_name) eqn:En; [|reflexivity].
+    apply name_eqb_eq in En. rewrite Hname in En. unfold eff_name in En.
+    destruct (renamed gate f) eqn:Er.
+    + unfold renamed in Er. destruct gate as [g|]; [|discriminate]. rewrite Hstart.
+      rewrite andb_comm in Er. rewrite Er. reflexivity.
+    + rewrite En, name_eqb_refl. apply orb_true_r.
 Qed.
 
 (* ---------- splitting the lines back into the runs ---------- *)
